@@ -66,8 +66,36 @@ def _resolve(body, defs, op, depth=0):
     return None
 
 
-def _subst_env(pl, ops, body, defs):
-    """place rooted in the closure environment -> the place that was captured"""
+def _written_again(body, X):
+    """may local X change after it got its (first) value?  (a second whole assignment, a write through a projection, a
+    mutable borrow, an argument that is assigned at all)"""
+    nd = 0
+    for b in body["blocks"]:
+        if b["cleanup"]:
+            continue
+        for s in b["stmts"]:
+            if s["k"] != "assign":
+                continue
+            if s["place"]["local"] == X:
+                if s["place"]["proj"]:
+                    return True
+                nd += 1
+            rv = s["rv"]
+            if rv["k"] in ("ref", "addr") and rv.get("place", {}).get("local") == X and (rv.get("mut") or rv["k"] == "addr") \
+                    and not any(e["k"] == "deref" for e in rv["place"]["proj"]):
+                return True
+        t = b["term"]
+        if t["k"] == "call" and t["dest"]["local"] == X:
+            if t["dest"]["proj"]:
+                return True
+            nd += 1
+    return nd > (0 if body["locals"][X].get("arg") else 1)
+
+
+def _subst_env(pl, ops, body, defs, snap=None):
+    """place rooted in the closure environment -> the place that was captured.  A variable captured BY VALUE that may
+    change between the creation of the closure and its call is read through a snapshot taken where the closure is created
+    (snap: dict field index -> local, filled here; the caller inserts the snapshot assignments)."""
     proj = pl["proj"]
     i = 0
     if i < len(proj) and proj[i]["k"] == "deref":
@@ -86,6 +114,13 @@ def _subst_env(pl, ops, body, defs):
             q = ds[0][3]["rv"]["place"]
             base_local, base_proj = q["local"], list(q["proj"])
             rest = rest[1:]
+            pl["local"] = base_local
+            pl["proj"] = copy.deepcopy(base_proj) + rest
+            return True
+    if snap and proj[i]["i"] in snap:
+        pl["local"] = snap[proj[i]["i"]]
+        pl["proj"] = rest
+        return True
     pl["local"] = base_local
     pl["proj"] = copy.deepcopy(base_proj) + rest
     return True
@@ -95,6 +130,25 @@ def _splice_closure(F, bi, K, ops, params, dest, target, span):
     """append a copy of closure K's body to F; block bi jumps into it; -> ok"""
     cb = F["body"]
     body = copy.deepcopy(K["body"])
+    # variables captured by value that may change between the creation of the closure and this call: the closure sees the
+    # value they had when it was created
+    snap = {}
+    agg_at = None
+    for xb in cb["blocks"]:
+        for xi, xs in enumerate(xb["stmts"]):
+            if xs["k"] == "assign" and xs["rv"].get("ops") is ops:
+                agg_at = (xb, xs)
+    if agg_at is not None and agg_at[1].get("snapshots"):
+        snap = dict(agg_at[1]["snapshots"])      # a second call of the same closure value reads the same snapshots
+    for k, cap in enumerate(ops):
+        if k in snap:
+            continue
+        if cap.get("k") in ("copy", "move") and (cap["place"]["proj"] or _written_again(cb, cap["place"]["local"])):
+            if agg_at is None or agg_at[1].get("snapshots"):
+                return False
+            src = cb["locals"][cap["place"]["local"]]["ty"] if not cap["place"]["proj"] else {"s": cap["place"].get("ty") or "", "k": "other"}
+            cb["locals"].append({"ty": copy.deepcopy(src), "name": None, "arg": False, "mut": False, "snapshot_of": cap["place"]["local"]})
+            snap[k] = len(cb["locals"]) - 1
     loff, boff = len(cb["locals"]), len(cb["blocks"])
     poff = len(F.get("promoted") or [])
     defs = _defs(cb)
@@ -106,7 +160,7 @@ def _splice_closure(F, bi, K, ops, params, dest, target, span):
 
     def reloc(pl):
         if pl["local"] == 1:
-            if not _subst_env(pl, ops, cb, defs):
+            if not _subst_env(pl, ops, cb, defs, snap):
                 bad.append(1)
             return
         if pl["local"] == 0 and rvo:
@@ -134,6 +188,14 @@ def _splice_closure(F, bi, K, ops, params, dest, target, span):
             b["term"] = {"k": "goto", "target": target, "span": b["term"]["span"], "inlined_return": K["key"]}
     if bad:
         return False
+    if snap and not agg_at[1].get("snapshots"):
+        at = agg_at[0]["stmts"].index(agg_at[1])
+        new = []
+        for k, L in sorted(snap.items()):
+            new.append({"k": "assign", "place": {"local": L, "proj": [], "ty": cb["locals"][L]["ty"]["s"]},
+                        "rv": {"k": "use", "op": {"k": "copy", "place": copy.deepcopy(ops[k]["place"])}}, "span": agg_at[1]["span"], "capture_snapshot": K["key"]})
+        agg_at[0]["stmts"][at:at] = new
+        agg_at[1]["snapshots"] = dict(snap)
     cb["locals"].extend(body["locals"])
     if K.get("promoted"):
         F["promoted"] = list(F.get("promoted") or []) + copy.deepcopy(K["promoted"])
